@@ -285,6 +285,11 @@ func Versions(name string, level int) G {
 		)
 	}
 	_ = n
+	// leading-zero family in the last one or two components (fraction-style and width-dependent
+	// comparisons), for every ecosystem; rejected spellings are filtered by the real parser
+	z := Lit("0", "1", "01", "010", "001", "0010", "00", "10", "100", "011", "11")
+	pre := Lit("1.", "1.0.", "v1.0.", "1.0-", "1.0_p", "1.0.0-rc.", "1.0-r", "1:1.", "1.0~", "1.0rc")
+	g = Alt(g, Seq(pre, z), Seq(Lit("1."), z, Lit("."), Lit("0", "1", "01", "010", "10")))
 	return g
 }
 
